@@ -9,7 +9,12 @@
     grown by append, a `[]byte(string)` conversion, the result of a same-package function all of whose returns are
     fresh — `freshcall:` — or of a reviewed external allocator), or a parameter of an unexported function (then every
     call site carries its own `callwrite:` row), or the row is a reviewed exception below;
-  * every external callee that receives a shared buffer is on the reviewed read-only list.
+  * every external callee that receives a shared buffer is on the reviewed read-only list;
+  * slices with other element types (stack slots `[][]byte`, conditional entries, parsed opcodes) are written only when
+    fresh or part of the interpreter's own state (thread / stack / State fields) — never a parameter or a callee's
+    result (an in-place filter of a ParsedScript parameter is such a write);
+  * `thread.State`, which builds the debugger snapshot, stores only freshly allocated slices (`src:make`): the snapshot is
+    a deep copy (C19).
 
   The value-semantics model (Interp/Exec.lean) is an adequate description of the Go handlers only under this discipline
   (`Heap.refines_*`, `C08.fresh_preserves_others`); `C08.in_place_changes_twin` is what happens without it.
@@ -55,15 +60,38 @@ def reviewed : List (String × String × List String × String) := [
   ("interpreter.stack.beforeStackPush", "extcall:(interpreter.Debugger).BeforeStackPush", ["param:bb"],
    "the debugger API hands the item itself (not a snapshot) to the stack callbacks: a debugger that writes into this argument is outside C19's quantifier (snapshots), recorded in DESIGN §11.5"),
   ("interpreter.stack.afterStackPush", "extcall:(interpreter.Debugger).AfterStackPush", ["param:bb"], "as BeforeStackPush"),
-  ("interpreter.stack.afterStackPop", "extcall:(interpreter.Debugger).AfterStackPop", ["param:bb"], "as BeforeStackPush")
+  ("interpreter.stack.afterStackPop", "extcall:(interpreter.Debugger).AfterStackPop", ["param:bb"], "as BeforeStackPush"),
+  ("interpreter.thread.State", "copy[interpreter.ParsedOpcode]", ["elem:field:interpreter.State.Scripts"],
+   "the snapshot's Scripts are copies of the ParsedOpcode structs whose Data fields still point into the parsed script (shallow): script data is not stack data, so outside C19's third clause; recorded in DESIGN §11.5")
 ]
 
 def isReviewed (r : String × String × List String) : Bool :=
   reviewed.any fun e => e.1 == r.1 && e.2.1 == r.2.1 && e.2.2.1 == r.2.2
 
+/-- slices that are the interpreter's own mutable state (the thread, its stacks, a snapshot under construction):
+    rows about slices whose elements are not bytes (stack slots, conditional entries, parsed opcodes) may target these -/
+def ownState (c : String) : Bool :=
+  hasPrefix "field:interpreter.thread." c || hasPrefix "field:interpreter.stack." c ||
+  hasPrefix "field:interpreter.State." c || hasPrefix "elem:field:interpreter.State." c
+
+/-- inside `thread.State` only the snapshot under construction may be written: taking a snapshot never touches the thread -/
+def snapshotState (c : String) : Bool :=
+  hasPrefix "field:interpreter.State." c || hasPrefix "elem:field:interpreter.State." c
+
+/-- a row about a slice whose elements are not bytes: the kind carries the element type in brackets -/
+def typedRow (kind : String) : Bool := kind.toList.contains '['
+
+def isSrc (c : String) : Bool := hasPrefix "src:" c
+
 def rowOk (r : String × String × List String) : Bool :=
   isReviewed r ||
   (if hasPrefix "extcall:" r.2.1 then readOnlyCallees.contains (String.ofList (r.2.1.toList.drop 8))
+   else if typedRow r.2.1 then
+     -- target: freshly allocated, or the interpreter's own state — never a parameter or a callee's result
+     ((r.2.2.filter fun c => !isSrc c).all fun c => freshOrigin c ||
+        (if r.1 == "interpreter.thread.State" then snapshotState c else ownState c)) &&
+     -- thread.State (the debugger snapshot) stores only freshly allocated slices: deep copies (C19)
+     (r.1 != "interpreter.thread.State" || (r.2.2.filter isSrc).all fun c => freshOrigin (String.ofList (c.toList.drop 4)))
    else r.2.2.all fun c => freshOrigin c || (hasPrefix "param:" c && unexported r.1))
 
 /-- the rows that do not satisfy the discipline (empty on the unchanged tree; the driver prints them as the witness
@@ -71,6 +99,11 @@ def rowOk (r : String × String × List String) : Bool :=
 def offending : List (String × String × List String) := GoBT.Gen.Writes.sites.filter fun r => !rowOk r
 
 def writesOk : Bool := GoBT.Gen.Writes.sites.all rowOk
+
+/-- the discipline restricted to some functions, which must have at least one row each (non-vacuity) -/
+def rowsOkFor (fns : List String) : Bool :=
+  (GoBT.Gen.Writes.sites.all fun r => !fns.contains r.1 || rowOk r) &&
+  (fns.all fun f => GoBT.Gen.Writes.sites.any fun r => r.1 == f)
 
 /-- every reviewed exception still exists in the code (a stale review entry is a broken tie too) -/
 def reviewCurrent : Bool := reviewed.all fun e => GoBT.Gen.Writes.sites.any fun r => e.1 == r.1 && e.2.1 == r.2.1 && e.2.2.1 == r.2.2
